@@ -741,7 +741,7 @@ func HarnessC12Filter() {
 // point's zero / positive / negative bucket counts equal a reference bucketing
 // of the measurements it covers at the point's own scale, so the cumulative
 // buckets equal the running total of the delta buckets (re-scaled)
-var aggExpoVals = []float64{1.5, 3, 6, 12, 100, 0.3, -3, 0}
+var aggExpoVals = []float64{1.5, 3, -3, 12, 100, 0.3, 6, 0}
 
 // index of the scale-0 bucket (2^i, 2^(i+1)] holding |v|
 func aggExpoIndex0(v float64) int {
@@ -913,7 +913,7 @@ func HarnessC02SeqF64() {
 // slots in any order (the SDK reuses the slots of a ResourceMetrics)
 func HarnessC08DestReuse() {
 	aggClock()
-	kind := vndChoice(3)
+	kind := vndChoice(4)
 	var m [2]Measure[int64]
 	var c [2]ComputeAggregation
 	for i := 0; i < 2; i++ {
@@ -925,6 +925,8 @@ func HarnessC08DestReuse() {
 			m[i], c[i] = b.ExplicitBucketHistogram([]float64{0, 10}, false, false)
 		case 2:
 			m[i], c[i] = b.LastValue()
+		case 3:
+			m[i], c[i] = b.ExponentialBucketHistogram(4, 0, false, false)
 		}
 	}
 	ctx := context.Background()
@@ -933,6 +935,7 @@ func HarnessC08DestReuse() {
 	var count [2]uint64
 	var last [2]int64
 	var buckets [2][3]uint64
+	var npos, nneg [2]uint64
 	k := vndParam("K", 5)
 	for step := 0; step < k; step++ {
 		a := vndChoice(2)
@@ -942,6 +945,11 @@ func HarnessC08DestReuse() {
 			total[a] += v
 			count[a]++
 			last[a] = v
+			if v > 0 {
+				npos[a]++
+			} else if v < 0 {
+				nneg[a]++
+			}
 			switch {
 			case v <= 0:
 				buckets[a][0]++
@@ -970,6 +978,21 @@ func HarnessC08DestReuse() {
 				p := d.DataPoints[0]
 				vndAssert(p.Count == count[a] && p.Sum == total[a], "cumulative-histogram-count-and-sum-equal-own-running-total")
 				vndAssert(len(p.BucketCounts) == 3 && p.BucketCounts[0] == buckets[a][0] && p.BucketCounts[1] == buckets[a][1] && p.BucketCounts[2] == buckets[a][2], "cumulative-histogram-buckets-equal-own-running-total")
+			}
+		case metricdata.ExponentialHistogram[int64]:
+			ok := kind == 3 && len(d.DataPoints) == 1
+			vndAssert(ok, "histogram-reported")
+			if ok {
+				p := d.DataPoints[0]
+				var ps, ns uint64
+				for _, x := range p.PositiveBucket.Counts {
+					ps += x
+				}
+				for _, x := range p.NegativeBucket.Counts {
+					ns += x
+				}
+				vndAssert(p.Count == count[a] && p.Sum == total[a], "cumulative-histogram-count-and-sum-equal-own-running-total")
+				vndAssert(ps == npos[a] && ns == nneg[a] && p.ZeroCount == count[a]-npos[a]-nneg[a], "pow2-count-is-zero-plus-positive-plus-negative")
 			}
 		case metricdata.Gauge[int64]:
 			vndAssert(kind == 2 && len(d.DataPoints) == 1 && d.DataPoints[0].Value == last[a], "gauge-reports-own-last-value")
